@@ -1,8 +1,10 @@
 (* C12 correspondence. One case = one (construction, depth, master seed, period) state of a
    real Sum{d}Kes / Sum{d}CompactKes key: the harness's classification of everything the
    real code produced; the model must produce exactly the same.
-   case := Case variant d k t m seed_after pk buf period topk sig rt upd_ok gv sigs vexps
-     variant 0 = SumKes, 1 = SumCompactKes; k = master seed number; t = updates done;
+   case := Case variant d k t refused m seed_after pk buf period topk sig rt upd_ok gv sigs vexps
+     variant 0 = SumKes, 1 = SumCompactKes; k = master seed number; t = successful updates done;
+     refused = update() calls made after that which returned KeyCannotBeUpdatedMore (the
+     model must refuse each of them too; everything below is observed AFTER them);
      m = message number signed; seed_after = caller's seed bytes after keygen;
      pk = key returned by keygen; buf = key buffer slots after t updates; period =
      get_period(); topk = to_pk(); sig = sign(m).to_bytes() as slots; rt = from_bytes
@@ -16,7 +18,7 @@ Open Scope Z_scope.
 (* (constructors rather than tuples: a 15-tuple literal elaborates far too slowly) *)
 Inductive vexp : Type := V (period : Z) (pk : cls) (m : Z) (sig_index : Z) (verdict : bool).
 Inductive case : Type :=
-  Case (variant d k t m : Z) (seed_after pk : cls) (buf : list cls) (period : Z) (topk : cls)
+  Case (variant d k t refused m : Z) (seed_after pk : cls) (buf : list cls) (period : Z) (topk : cls)
        (sig : list cls) (rt upd_ok : bool) (gv : list bool) (sigs : list (list cls)) (vexps : list vexp).
 
 Definition is_some {A} (o : option A) : bool := match o with Some _ => true | None => false end.
@@ -35,22 +37,36 @@ Definition sign_bytes (variant : Z) (d : nat) (k : key) (m : Z) : list term * bo
        let bs := cmpsig_to_bytes sg in
        (bs, match cmpsig_from_bytes d bs with Some sg' => list_eqb term_eqb (cmpsig_to_bytes sg') bs | None => false end).
 
+(* j further update() calls, each of which must be refused; the key the caller is left with *)
+Fixpoint refused_calls (d : nat) (j : nat) (k : key) : option key :=
+  match j with
+  | O => Some k
+  | S j' => match refused_calls d j' k with
+            | None => None
+            | Some k' => let '(k'', ok) := update d k' in if ok then None else Some k''
+            end
+  end.
+
 (* the model's view of one state *)
-Definition model_state (variant : Z) (d : nat) (k : Z) (t : nat) (m : Z)
+Definition model_state (variant : Z) (d : nat) (k : Z) (t refused : nat) (m : Z)
   : option (term * term * list term * Z * term * list term * bool * bool) :=
   let '(k0, pk, sa) := keygen d (repeat junk (ksize d)) (Master k) in
   match updates d t k0 with
   | None => None
-  | Some ky =>
-      let '(bs, rt) := sign_bytes variant d ky m in
-      Some (sa, pk, key_buf ky, get_period ky, to_pk d ky, bs, rt, is_some (update d ky))
+  | Some ky0 =>
+      match refused_calls d refused ky0 with
+      | None => None
+      | Some ky =>
+          let '(bs, rt) := sign_bytes variant d ky m in
+          Some (sa, pk, key_buf ky, get_period ky, to_pk d ky, bs, rt, snd (update d ky))
+      end
   end.
 
 Definition case_ok (c : case) : bool :=
-  let '(Case variant d k t m seed_after pk buf period topk sig rt upd_ok gv sigs vexps) := c in
+  let '(Case variant d k t refused m seed_after pk buf period topk sig rt upd_ok gv sigs vexps) := c in
   let dn := Z.to_nat d in
   let I := interp dn in
-  match model_state variant dn k (Z.to_nat t) m with
+  match model_state variant dn k (Z.to_nat t) (Z.to_nat refused) m with
   | None => false
   | Some (sa', pk', buf', period', topk', sig', rt', upd') =>
       term_eqb sa' (I seed_after) && term_eqb pk' (I pk) && list_eqb term_eqb buf' (map I buf)
@@ -63,10 +79,10 @@ Definition case_ok (c : case) : bool :=
   end.
 
 Definition case_out (c : case) :=
-  let '(Case variant d k t m seed_after pk buf period topk sig rt upd_ok gv sigs vexps) := c in
+  let '(Case variant d k t refused m seed_after pk buf period topk sig rt upd_ok gv sigs vexps) := c in
   let dn := Z.to_nat d in
   let I := interp dn in
-  match model_state variant dn k (Z.to_nat t) m with
+  match model_state variant dn k (Z.to_nat t) (Z.to_nat refused) m with
   | None => None
   | Some (sa', pk', buf', period', topk', sig', rt', upd') =>
       Some (abstr sa', abstr pk', map abstr buf', period', abstr topk', map abstr sig', rt', upd',
